@@ -1771,6 +1771,11 @@ func parseNestedFunctionsInternal(expr string, aggFields []types.AggregationFiel
 					}
 				}
 
+				// sum(`v`) + 1: a back-quoted column is the column, as it is for a bare sum(`v`)
+				if len(inputField) > 2 && inputField[0] == '`' && strings.IndexByte(inputField[1:], '`') == len(inputField)-2 {
+					inputField = inputField[1 : len(inputField)-1]
+				}
+
 				// 添加到聚合字段列表
 				fieldInfo := types.AggregationFieldInfo{
 					FuncName:    funcName,
